@@ -10,6 +10,22 @@ use std::sync::Arc;
 /// Root node: genesis of `net` with `value` MEL under the always-true covenant, plus a set-up faucet
 /// block that gives the wallet coins of every built-in denomination.  Returns the sealed block-0 node.
 pub fn root(net: NetID, fee_mult: u128, with_wallet: bool) -> (World, Node) {
+    match try_root(net, fee_mult, with_wallet) {
+        Ok(x) => x,
+        Err(p) => {
+            // an honest genesis -> faucet -> seal sequence panicked inside the code under test: no scenario can be built on it.
+            // C09 reports this as a violation (it calls try_root itself); for every other check it is a machinery exit, not a verdict.
+            eprintln!("MACHINERY-FAILURE the honest set-up sequence (genesis, set-up faucet, seal) panicked in the code under test: {} [{}]", p.msg, p.frame);
+            std::process::exit(2);
+        }
+    }
+}
+
+pub fn try_root(net: NetID, fee_mult: u128, with_wallet: bool) -> Result<(World, Node), crate::guard::PanicInfo> {
+    crate::guard::guard(|| root_unguarded(net, fee_mult, with_wallet))
+}
+
+fn root_unguarded(net: NetID, fee_mult: u128, with_wallet: bool) -> (World, Node) {
     let w = world_mel(net, 1_000_000_000, fee_mult);
     let mut u = w.genesis.clone();
     let mut block_txs: Vec<Transaction> = vec![];
